@@ -78,7 +78,7 @@ Section Trans.
       kfind vc_id (vc_id c) (v_cls v) = Some c ->
       kfind vo_other (vo_other o) (vc_oofs c) = Some o -> vo_live o = true ->
       (forall l, In l (vo_lofs o) -> vl_other l <> lother) ->
-      (forall l, In l (vo_lofs o) -> vl_owner l <> oid) ->
+      (reg = None -> forall l, In l (vo_lofs o) -> vl_owner l <> oid) ->
       match reg with
       | Some x => lo_id x = v_nextlo v /\ oid = v_nextlo v /\ lo_files x = 0
                   /\ find_lowner_key (lo_key x) (vc_lows c) = None
